@@ -1,6 +1,7 @@
 import Nstd.Common.Basic
 import Nstd.Variant.Spec
 import Nstd.Variant.Deep
+import Nstd.Variant.DeepSelf
 import Nstd.Variant.Ieee
 /-
   Line protocol of the Variant area (6 variables).
@@ -286,18 +287,50 @@ def traceOp (s : Deep.DState) (st : Stats) (op : Op) : Stats :=
      | p, lf => traceWalk (s.h.next + Deep.allocBound op + 1) s.vars s.h (s.vars v) false st p lf)
   | _ => st
 
+
+open Deep in
+/-- container sizes along `x, x.back(), x.back().back(), …` (5 levels) read off the heap -/
+def backChain : Nat → Heap → Option Cell → List Nat
+  | 0, _, _ => []
+  | f + 1, h, c =>
+    match c with
+    | some (.ptr b) =>
+      (match h.heap b with
+       | some blk =>
+         (match blk.pay with
+          | .str _ => 0 :: backChain f h none
+          | p => p.cells.length :: backChain f h p.cells.getLast?)
+       | none => 0 :: backChain f h none)
+    | _ => 0 :: backChain f h none
+
+open Deep in
+/-- the probes of the harness (`opSelfApp`) on the model of the real code -/
+def selfProbe (k : String) : Option (List Nat) :=
+  let run (s : DState) (p : List Step) (lk : LinkKind) : Option (List Nat) :=
+    (selfLink ieee s 0 p lk).map (fun s' => backChain 5 s'.h (some (s'.vars 0)))
+  if k == "l" then run dinit [] .lapp
+  else if k == "a" then run dinit [] .aapp
+  else if k == "m" then run dinit [] (.mput [107])
+  else if k == "n" then
+    -- v.toList().append(Variant(List<Variant>())); v.toList().back().toList().append(v)
+    (do let s1 ← dstep ieee dinit (.new 1 (.list []))
+        let s2 ← dstep ieee s1 (.mut 0 [] (.lapp (.var 1)))
+        let s3 ← dstep ieee s2 (.mut 1 [] .clear)
+        run s3 [.li 0] .lapp)
+  else none
+
 def stepLine (ss : Deep.DState × Stats) (ws : List String) : (Deep.DState × Stats) × String :=
   let (s, st) := ss
   match ws with
   | ["reset"] => ((Deep.dinit, st.closeHistory s), obs Deep.dinit)
   | ["stats"] => (ss, (st.closeHistory s).show)
   | ["selfapp", k] =>
-    -- finding "self-append": outside the precondition `mutOk` of the model; the line answers with
-    -- what the specification (value semantics: the appended copy is the old value) prescribes
-    (ss, if k == "l" || k == "a" || k == "m" then s!"selfapp {k} 1 0 0 0 0"
-        else if k == "n" then "selfapp n 1 1 1 0 0"
-        else if k == "e" then "selfapp e 1 1 0 0 0"
-        else "bad-op")
+    -- finding "self-append": outside the precondition `mutOk`.  The line answers with what the *model of the real
+    -- code* (`Deep.selfLink`: accessor chain, copy of the current v, link — DeepSelf.lean) predicts: the container
+    -- sizes along v, v.back(), v.back().back(), … in the cyclic heap.  (`e`, the element assignment, is not modelled.)
+    (ss, match selfProbe k with
+         | some sizes => s!"selfapp {k} " ++ " ".intercalate (sizes.map toString)
+         | none => if k == "e" then "selfapp e -" else "bad-op")
   | _ =>
     let st := { st with lines := st.lines + 1 }
     match parseOp ws with
